@@ -116,7 +116,14 @@ class Renderer:
         if k == 'd':
             return pad + '!is_defeat();\n'
         if k == 'h':
-            return pad + '!h(%s);\n' % self.cond()
+            # a defeat call that may or may not defeat: as a statement, or nested inside an expression
+            # (the typechecker only tracks defeat calls that are whole statements)
+            sp = zlib.crc32(('%d:%s:%d:hspell' % (self.seed, self.text, nd.id)).encode()) % 3
+            if sp == 0:
+                return pad + '!h(%s);\n' % self.cond()
+            if sp == 1:
+                return pad + 'x = !hv(%s) + x;\n' % self.cond()
+            return pad + 'x = x * !hv(%s);\n' % self.cond()
         if k == 'w':
             return pad + ('all_is_broken();\n' if _pick(self.seed, self.text, nd.id, 'w') else 'all_is_win();\n')
         if k == '{':
@@ -144,7 +151,8 @@ class Renderer:
 
 SIGIL = {'p': '', 'y': '@', 'd': '!'}
 PARAMS = '(bool a, bool b, bool c, int x)'
-HELPER = 'empty !h(bool a) {\n    if (a) {\n        !is_defeat();\n    }\n}\n'
+HELPER = ('empty !h(bool a) {\n    if (a) {\n        !is_defeat();\n    }\n}\n'
+          'int !hv(bool a) {\n    if (a) {\n        !is_defeat();\n    }\n    return 1;\n}\n')
 
 
 def render_function(text, flavour, seed, name='f', trailing_return=False):
